@@ -1,6 +1,8 @@
 import Emerge.Emitted
 import Emerge.Proofs.Scanner
 import Emerge.Proofs.Reader
+import Emerge.Proofs.Utf8
+import Emerge.Inst.ReaderTmpl
 /-
   C19 — the emitted lexer tokenises input exactly as the token automaton prescribes.
 
@@ -17,8 +19,11 @@ import Emerge.Proofs.Reader
   half size, source length and block alignment (`C19_reader`, `C19_reader_lexeme`): `next`,
   `Retract`, `Lexeme` and `Skip` return what a cursor over the whole source returns, as long as the
   calls stay within the reader's contract (source without NUL; a `Retract` gives back bytes of the
-  pending lexeme; lexeme plus look-ahead fit into one half). Not proved: the UTF-8 assembly of
-  `Next` from `next` (exercised by running the compiled lexer on multi-byte texts).
+  pending lexeme; lexeme plus look-ahead fit into one half). UTF-8: the bytes of any text of Unicode
+  scalar values decode to that text (`C19_utf8`, `Utf8.decode` is the table-driven decoder of the
+  emitted `Next`), a rune gives back 1 to 4 bytes, and a text without U+0000 has no NUL byte, so the
+  hypothesis of `C19_reader` is met. Not proved: that the emitted `Next` is `Utf8.decode` step by step
+  (same tables; exercised by running the compiled lexer on multi-byte texts).
 -/
 namespace Emerge.Props.C19
 open Emerge Emerge.Scanner Emerge.Emitted
@@ -176,5 +181,35 @@ example :
       .next, .next, .next, .retract 3, .next, .next, .next, .lexeme, .next, .next, .next, .next]
     aRun src 11 4 ⟨0, 0, 0⟩ ops = some (cRun src 11 4 (init src 11 4 (fun _ => 0)) ops) ∧
     (cRun src 11 4 (init src 11 4 (fun _ => 0)) ops).getLast? = some .eof := by decide
+
+/-- **Text and bytes**: for every text of Unicode scalar values, tokenising the decoded bytes of its UTF-8 encoding
+    is tokenising the text (decoding ends at end of input, never in an error). -/
+theorem C19_utf8 (S : Spec) (rs : List Rune) (h : ∀ r ∈ rs, Utf8.Scalar r) (fuel : Nat) (hf : rs.length ≤ fuel) :
+    Emitted.scan S (Utf8.decode fuel (Utf8.encode rs)).1 = Emitted.scan S rs ∧
+    (Utf8.decode fuel (Utf8.encode rs)).2 = .eof := by
+  rw [Utf8.decode_encode rs h fuel hf]; exact ⟨rfl, rfl⟩
+
+/-- the bytes of a text without U+0000 contain no NUL: the reader's sentinel cannot occur in the source -/
+theorem C19_no_nul (rs : List Rune) (h : ∀ r ∈ rs, r ≠ 0) : ∀ b ∈ Utf8.encode rs, b ≠ 0 := by
+  intro b hb
+  simp only [Utf8.encode, List.mem_flatMap] at hb
+  obtain ⟨r, hr, hb⟩ := hb
+  exact Utf8.encodeRune_nul_free r (h r hr) b hb
+
+example : Utf8.decode 3 (Utf8.encode [0x61, 0x20AC, 0x1F600]) = ([0x61, 0x20AC, 0x1F600], .eof) := by decide
+
+/-! ### the tie of the reader model to the template (regenerated from input.go.tmpl on every run) -/
+
+/-- The byte-level methods of the emitted reader read, statement for statement, as the ones `Emerge.Reader` models;
+    its sentinel is NUL; its UTF-8 tables classify every first byte as `Utf8.decode` does. -/
+theorem C19_reader_template :
+    Gen.ReaderTmpl.body_load = Ref.ReaderTmpl.body_load ∧ Gen.ReaderTmpl.body_loadFirst = Ref.ReaderTmpl.body_loadFirst ∧
+    Gen.ReaderTmpl.body_loadSecond = Ref.ReaderTmpl.body_loadSecond ∧ Gen.ReaderTmpl.body_next = Ref.ReaderTmpl.body_next ∧
+    Gen.ReaderTmpl.body_Retract = Ref.ReaderTmpl.body_Retract ∧ Gen.ReaderTmpl.body_Lexeme = Ref.ReaderTmpl.body_Lexeme ∧
+    Gen.ReaderTmpl.body_Skip = Ref.ReaderTmpl.body_Skip ∧ Gen.ReaderTmpl.eof = 0 ∧
+    (∀ b0 : Nat, b0 < 256 → Inst.ReaderTmpl.tableClass b0 = Inst.ReaderTmpl.rangeClass b0) :=
+  ⟨Inst.ReaderTmpl.body_load_eq, Inst.ReaderTmpl.body_loadFirst_eq, Inst.ReaderTmpl.body_loadSecond_eq,
+   Inst.ReaderTmpl.body_next_eq, Inst.ReaderTmpl.body_Retract_eq, Inst.ReaderTmpl.body_Lexeme_eq,
+   Inst.ReaderTmpl.body_Skip_eq, Inst.ReaderTmpl.sentinel_is_nul, Inst.ReaderTmpl.class_eq⟩
 
 end Emerge.Props.C19
